@@ -176,6 +176,29 @@ def directory_doc():
             "steps": {"mk": {"run": mk, "in": {"tag": "tag"}, "out": ["o"]}, "ls": {"run": ls, "in": {"d": "d"}, "out": ["o"]}}}
 
 
+def check_additions(path: str, extra_file: str):
+    """`--add-file src=F` and `--add-property ./.license=…`: F is a described member with its sha1, the root dataset got the property"""
+    probs = []
+    z = zipfile.ZipFile(path)
+    g = json.loads(z.read("ro-crate-metadata.json"))["@graph"]
+    byid = {e["@id"]: e for e in g}
+    sha = C.sha1_file(extra_file)
+    ents = [e for e in g if "File" in _types(e) and e.get("sha1") == sha]
+    if not ents:
+        probs.append(("add-file:not-described", f"--add-file {os.path.basename(extra_file)!r}: no File entity with sha1 {sha}"))
+    else:
+        e = ents[0]
+        if e["@id"] not in z.namelist() or hashlib.sha1(z.read(e["@id"])).hexdigest() != sha:
+            probs.append(("add-file:not-archived", f"--add-file: member {e['@id']} missing or with other content"))
+        if {"@id": e["@id"]} not in byid["./"].get("hasPart", []):
+            probs.append(("add-file:not-part-of-root", f"--add-file: {e['@id']} is not in the root dataset's hasPart"))
+        if e["@id"] != "notes.txt":
+            probs.append(("add-file:name", f"--add-file dst=/notes.txt: the entity is {e['@id']!r}"))
+    if byid["./"].get("license") != "CC-BY-4.0":
+        probs.append(("add-property:missing", f"--add-property ./.license: root has license={byid['./'].get('license')!r}"))
+    return probs
+
+
 def _flatten(v):
     out = []
     for x in v:
@@ -296,8 +319,14 @@ class C34(Property):
         json.dump(ddoc, open(os.path.join(dd, "wf.cwl"), "w"), indent=1)
         djob = {"d": {"class": "Directory", "path": os.path.join(dd, "indir")}, "tag": "t"}
         json.dump(djob, open(os.path.join(dd, "job.json"), "w"))
-        descs["dir"] = {"doc": ddoc, "job": djob, "features": ["Directory-input", "Directory-output"], "steps": 2}
-        cases.insert(0, {"id": "dir", "dir": dd, "doc": "wf.cwl", "job": "job.json", "name": "wf", "timeout": 900, "prov": True, "only_sf": True})
+        descs["dir"] = {"doc": ddoc, "job": djob, "features": ["Directory-input", "Directory-output", "add-file", "add-property"], "steps": 2}
+        # `streamflow prov --add-file src=…  --add-property ./.license=…` (RunCrateProvenanceManager.add_file / add_property)
+        extra = os.path.join(dd, "NOTES extra.txt")
+        open(extra, "w").write("an additional file\n")
+        descs["dir"]["extra_file"] = extra
+        cases.insert(0, {"id": "dir", "dir": dd, "doc": "wf.cwl", "job": "job.json", "name": "wf", "timeout": 900, "prov": True, "only_sf": True,
+                         "prov_args": ["--add-file", f"src={extra},dst=/notes.txt", "--add-property", "\\./.license=CC-BY-4.0"],
+                         "prov_args_alt": ["--add-file", f"src={extra}"]})
         ctx.corpus_replayed += 1
         # a run whose main entity is a bare CommandLineTool (DESIGN §6 #22)
         td = os.path.join(ctx.scratch, "tool")
@@ -333,6 +362,13 @@ class C34(Property):
                     ctx.fail(key, f"streamflow prov failed (rc {pv['rc']}): {tail[:300]}", rep)
                     continue
                 probs, ents, names = check_archive(pv["archive"], desc["job"], sf["out"], case["dir"])
+                if desc.get("extra_file"):
+                    probs += check_additions(pv["archive"], desc["extra_file"])
+                    alt = res.get("prov_alt")
+                    if alt is not None and alt["rc"] != 0:
+                        tail = alt["stderr"].strip().splitlines()[-1] if alt["stderr"].strip() else ""
+                        probs.append(("export:add-file-default-dst-KeyError" if "KeyError: '/'" in alt["stderr"] else "export:add-file-failed",
+                                      f"`streamflow prov --add-file src=F` (default dst) fails: {tail[:200]}"))
                 for key, detail in probs:
                     ctx.fail(key, f"document {case['id']}: {detail}", rep)
                 toks = ["crate"]
